@@ -14,7 +14,7 @@ EXTRA_MODULES = ['PyhmsVerif.Props.EngineDE', 'PyhmsVerif.Props.EngineSEA', 'Pyh
 LEVEL = 'proof'
 LEVEL_TEXT = 'Theorems: one evaluation request returns exactly the value the objective returned (wrappers transparent) and logs that pair, a refused request returns the sentinel; in every reachable state every stored individual of every deme was evaluated while one of that deme generations was made, or carries the sentinel of an exhausted budget, or is the deme sprout seed (local deme starting point); recorded metaepochs never change in any later state. Tie: trace refinement (full histories as exact rationals in every dump; the model rejects unevaluated stored individuals) + monitor re-evaluating every stored genome, digests of recorded generations at all later boundaries, minimize(). NEW: C02_stored_is_objective_value — in every reachable state every stored individual is backed by a logged invocation of the objective by that deme, at that level, at exactly its genome, that returned exactly its fitness — or carries the sentinel of a refused request, or is the deme own seed (inductive invariant EvLog on well-formed trees). ENGINE LEVEL (Model/Engine.lean, Props/EngineDE.lean): one whole generation of DE.run / SHADE.run is in the model, deterministic given the generator draws (donor arithmetic in binary64, reflect repair, crossover mask incl. the row-zeroing quirk, fitness carry-over, which rows are evaluated, replacement), and is diffed bit-exactly against the real engines with recorded draws: deGen_carry — a trial that keeps a fitness without being evaluated is its parent (same genome, same fitness), every other trial carries a logged objective value; deGen_requests — the evaluated rows are exactly the rows that differ from their parent. SEA FAMILY (Engine.seaOffspring, Props/EngineSEA.lean): one pass of the variational pipeline (tournament = first best contestant, arithmetic crossover in binary64, Gaussian mutation with toroidal repair or uniform mutation, loss of fitness on changed rows, evaluation in row order) is in the model and diffed bit-exactly against BaseSEA.run with recorded draws: seaOffspring_carried — every offspring either was evaluated in this pass or is, genome and fitness together, an individual of the parent population (all three pipelines). MWEA SELECTION (Model/Multiwinner.lean, Props/Multiwinner.lean): MultiwinnerRepeatedSelection with the CCGreedy voting scheme is in the model (Borda scores from the positions in the preference lists, greedy rounds with the strict-improvement rule, n//k+1 elections, concatenation; groups, preference lists and shuffles are environment) and is diffed against the real operator with recorded draws: repeated_mem — every individual the selection hands on is, genome and fitness together, an individual of the population it was given.'
 LEVEL_NOTE = 'Trusted: Lean kernel + standard axioms; the hand-written tree model is tied to the code by trace refinement on sampled runs (the model refuses a generation that does not chain, a stored individual that was never evaluated, an iterate scipy never evaluated); numerical engines and objective values are environment; monitors trusted as failing-input search. Functional: the objective is deterministic (equal genomes get equal values) — needed to read -was evaluated with that value- as -carries the true fitness-; re-evaluation with a pristine copy of the objective is done by the monitor.'
-TECHNIQUE = "trace refinement against the Lean tree model (Tree.step re-executes real runs) + direct monitors"
+TECHNIQUE = "Lean 4 theorems (inductive invariants of the tree machine Tree.step, proved for all configurations and event sequences) tied to the code by trace refinement (Tree.step re-executes real runs; engine generations replayed bit-exactly by the engine model) + direct monitors as failing-input search"
 RULE = "case = one traced run of a random configuration (1-3 levels, engine per level from the full list, every shipped GSC/LSC kind plus user-defined ones, both stock sprout mechanisms and user-composed chains, hibernation on/off, both directions, decimal boxes, optional cutoff/precision/stats wrappers, shared or per-level problems); non-trivial = run with >= 2 demes and >= 2 metaepochs; distinct by configuration hash"
 ASSUMPTIONS = ["objective is deterministic and never returns NaN", "runs are capped at 12 metaepochs by a user-level composite stop condition"]
 FORCE = None
